@@ -357,6 +357,11 @@ func harnessIntrinsic(short string) intrinsicFn {
 			}
 			return (*IfaceV)(nil)
 		}
+	case "vJSONMulti":
+		// vJSONMulti(views...): one JSON document seen through several Go types (Unmarshal picks the view whose type fits)
+		return func(x *Exec, _ *ssa.Function, a []Value) Value {
+			return x.byteSlice(x.newToken("json", &jsonViews{x.sliceElems(a[0].(*SliceV))}).B)
+		}
 	case "vJSON":
 		// vJSON(v): the uninterpreted JSON encoding of v as []byte
 		return func(x *Exec, _ *ssa.Function, a []Value) Value {
@@ -384,6 +389,8 @@ func harnessIntrinsic(short string) intrinsicFn {
 	}
 	return nil
 }
+
+type jsonViews struct{ views []Value }
 
 type tokenInfo struct {
 	kind string
@@ -1090,8 +1097,7 @@ func stdIntrinsic(name string, fn *ssa.Function) intrinsicFn {
 				x.abort("UNSUPPORTED", "json.Unmarshal of non-token data (JSON text layer is outside the engine)")
 			}
 			dst, _ := a[1].(*IfaceV)
-			src, _ := ti.arg.(*IfaceV)
-			if dst == nil || src == nil {
+			if dst == nil {
 				return x.newErr("json: Unmarshal(nil)")
 			}
 			pt, ok := dst.T.(*types.Pointer)
@@ -1099,6 +1105,33 @@ func stdIntrinsic(name string, fn *ssa.Function) intrinsicFn {
 				return x.newErr("json: Unmarshal(non-pointer)")
 			}
 			p := dst.V.(*Pointer)
+			var src *IfaceV
+			if mv, isMulti := ti.arg.(*jsonViews); isMulti {
+				for _, v := range mv.views {
+					iv, _ := v.(*IfaceV)
+					if iv == nil {
+						continue
+					}
+					if types.Identical(pt.Elem(), iv.T) {
+						src = iv
+						break
+					}
+					if sp, isPtr := iv.T.(*types.Pointer); isPtr && types.Identical(pt.Elem(), sp.Elem()) {
+						src = iv
+						break
+					}
+				}
+				if src == nil {
+					return x.newErr("json: cannot unmarshal into " + pt.Elem().String())
+				}
+			} else {
+				src, _ = ti.arg.(*IfaceV)
+			}
+			if src == nil {
+				// JSON null
+				x.store(p, x.zero(pt.Elem()))
+				return nilErr
+			}
 			switch {
 			case types.Identical(pt.Elem(), src.T):
 				x.store(p, src.V)
